@@ -16,10 +16,20 @@ Two layers.
 2. ROUNDING SPEC (transparent `B64`, ElvModel/C12/Binary64.lean): the function
    the driver uses for `float64(int)` / `big.Rat.Float64`, and the decoding it
    uses for `big.Rat.SetFloat64`, are plain arithmetic; theorems about them are
-   in the second half of this file.
+   in the second half of this file.  Since round 2 the specification is
+   complete: `C12_rne_nearest` (nearest among ALL finite doubles, ties to even,
+   exact overflow thresholds, monotone), `C12_rne_unique`, and the statement
+   that the model's conversion of a rational is that single rounding
+   (`C12_conversion_rat_is_rne`) while `float64(num)/float64(denom)` is not
+   (`C12_double_rounding_counterexample`).
+
+Round 2 also added the structure theorems for float `math:pow` and float
+`range` (`C12_pow`, `C12_range_float`, `C12_range_float_loop`).
 -/
 import ElvProofs.C12.Struct
 import ElvProofs.C12.Round
+import ElvProofs.C12.DoubleRounding
+import ElvProofs.C12.RangePow
 import ElvModel.C12.Driver
 open C11 C12 Go
 
@@ -194,18 +204,178 @@ theorem C12_rne_scale (n d g : Nat) (hn : 0 < n) (hd : 0 < d) (hg : 0 < g) :
     B64.rneMag (n * g) (d * g) = B64.rneMag n d :=
   B64.rneMag_scale n d g hn hd hg
 
-/-- NOT PROVED (the remaining gap of the rounding spec): the pattern returned
-for an arbitrary rational decodes to a double at least as close to it as any
-other finite double (with overflow to the infinity pattern beyond the largest
-finite double plus half an ulp), and `rne` is monotone.  `C12_rne_exact`,
-`C12_ilog2_spec`, `C12_rne_half_ulp` and `C12_rne_ties_even` are the proved ingredients
-(representables are fixed points; the exponent is `⌊log₂⌋`; the decoded result
-is within half an ulp of the argument, with the even significand at a tie);
-what is missing is the comparison with doubles of other binades (their spacing,
-the order of patterns) and monotonicity.  The correspondence run covers it by sampling rationals at and next to
-every kind of rounding boundary against Go and against an independent
-nearest-double search. -/
+/-! ### Round 2: `B64.rne` is THE correctly rounded conversion
+
+`B64.rdist a b` is `|a − b|` (`if a < b then b - a else a - b`);
+`B64.overflowThr` is the natural number `(2^54 − 1)·2^970 = 2^1024 − 2^970`
+(`C12_overflow_threshold`), the midpoint between the largest finite double and
+`2^1024`. -/
+
+/-- The full rounding specification of `B64.rne : Rat → bit pattern`
+(round to nearest, ties to even, IEEE overflow rule), for EVERY rational:
+
+1. the result is a well-formed non-NaN pattern;
+2. when it is finite with value `r`, no finite double `v` — of any binade, of
+   either sign — is closer to `q` than `r`, and if some other value is equally
+   close the returned pattern is the even one;
+3. it is `+Inf` exactly when `q ≥ 2^1024 − 2^970` and `-Inf` exactly when
+   `q ≤ −(2^1024 − 2^970)` (i.e. exactly when rounding with an unbounded
+   exponent would exceed the largest finite double; the midpoint itself is a
+   tie that goes to the even neighbour `2^1024`, so it overflows);
+4. it is monotone in value: `q₁ ≤ q₂` with finite results gives `r₁ ≤ r₂`
+   (and by 3. the infinite results are ordered too: the set of arguments sent
+   to `+Inf` is upward closed, the set sent to `-Inf` downward closed). -/
 def C12_rne_nearest_full : Prop :=
-  ∀ q : Rat, ∀ r : Rat, B64.toRat (B64.rne q) = some r →
+  (∀ q : Rat, B64.rne q < 2 ^ 64 ∧ B64.rne q % B64.signBit ≤ B64.infMag) ∧
+  (∀ q r : Rat, B64.toRat (B64.rne q) = some r →
     ∀ bits : Nat, bits < 2 ^ 64 → ∀ v : Rat, B64.toRat bits = some v →
-      (if q < r then r - q else q - r) ≤ (if q < v then v - q else q - v)
+      B64.rdist q r ≤ B64.rdist q v ∧
+      (B64.rdist q r = B64.rdist q v → v ≠ r → B64.rne q % 2 = 0)) ∧
+  (∀ q : Rat, (B64.rne q = B64.infMag ↔ (B64.overflowThr : Rat) ≤ q) ∧
+    (B64.rne q = B64.signBit + B64.infMag ↔ q ≤ -(B64.overflowThr : Rat))) ∧
+  (∀ q1 q2 : Rat, q1 ≤ q2 → ∀ r1 r2 : Rat,
+    B64.toRat (B64.rne q1) = some r1 → B64.toRat (B64.rne q2) = some r2 → r1 ≤ r2)
+
+/-- **Proved in round 2** (was the open gap of round 1).  The proof is in
+`ElvProofs/C12/Nearest.lean` (natural numbers in units of `2^-1074`: every
+double is below the binade of the result or on its grid `magUnits_grid`, the
+significand is a nearest grid point `sig_nearest`, patterns are ordered like
+values `magUnits_strictMono`, monotonicity follows from nearest-ness, the
+overflow threshold from nearest-ness against the two patterns around it) and
+`ElvProofs/C12/NearestRat.lean` (transport to `Rat`, signs). -/
+theorem C12_rne_nearest : C12_rne_nearest_full :=
+  ⟨B64.rne_wf, B64.rne_nearest, fun q => ⟨B64.rne_eq_inf_iff q, B64.rne_eq_neg_inf_iff q⟩, B64.rne_mono⟩
+
+/-- **The specification has one answer.**  If a finite double `bits` (value
+`v`) satisfies item 2 of `C12_rne_nearest_full` for `q` — at least as close as
+every finite double, even pattern at a tie — then its value is the value of
+`B64.rne q`.  So a conversion that ever differs in value from `B64.rne`
+(`C12_double_rounding_counterexample`) cannot be "nearest, ties to even". -/
+theorem C12_rne_unique (q r : Rat) (hr : B64.toRat (B64.rne q) = some r)
+    (bits : Nat) (hb : bits < 2 ^ 64) (v : Rat) (hv : B64.toRat bits = some v)
+    (hspec : ∀ bits' : Nat, bits' < 2 ^ 64 → ∀ v' : Rat, B64.toRat bits' = some v' →
+      B64.rdist q v ≤ B64.rdist q v' ∧ (B64.rdist q v = B64.rdist q v' → v' ≠ v → bits % 2 = 0)) :
+    v = r := by
+  have h := hspec (B64.rne q) (B64.rne_wf q).1 r hr
+  exact B64.rne_unique q r hr bits hb v hv h.1 (fun e ne => h.2 e (Ne.symm ne))
+
+-- non-vacuity: `B64.rne q` itself satisfies the hypothesis `hspec`
+example (q r : Rat) (hr : B64.toRat (B64.rne q) = some r) :
+    ∀ bits' : Nat, bits' < 2 ^ 64 → ∀ v' : Rat, B64.toRat bits' = some v' →
+      B64.rdist q r ≤ B64.rdist q v' ∧ (B64.rdist q r = B64.rdist q v' → v' ≠ r → B64.rne q % 2 = 0) :=
+  fun b hb v' hv' => C12_rne_nearest.2.1 q r hr b hb v' hv'
+
+/-- The threshold in closed form. -/
+theorem C12_overflow_threshold : (B64.overflowThr : Rat) = (2 : Rat) ^ 1024 - (2 : Rat) ^ 970 :=
+  B64.overflowThr_rat
+
+/-- The order of magnitude patterns is the order of the values they denote
+(every exponent; the pattern of infinity reads as `2^1024`): this is what makes
+"nearest within the binade" nearest among all doubles. -/
+theorem C12_pattern_order (m1 m2 : Nat) (h : m1 < m2) : B64.magUnits m1 < B64.magUnits m2 :=
+  B64.magUnits_strictMono m1 m2 h
+
+-- non-vacuity: a non-dyadic argument (finite result), a tie across a binade
+-- boundary (2^53+1 lies half way between 2^53 and 2^53+2: the even pattern,
+-- 2^53, is returned), the two sides of the overflow threshold, underflow to
+-- the smallest subnormal / to zero at the half-way point (tie to the even 0)
+example : (B64.toRat (B64.rne (mkRat 1 3))).isSome = true := by decide +kernel
+example : B64.rne (9007199254740993 : Rat) = 0x4340000000000000 := by decide +kernel
+example : B64.rne ((2 ^ 1024 - 2 ^ 970 : Int) : Rat) = B64.infMag ∧
+    B64.rne ((2 ^ 1024 - 2 ^ 970 - 1 : Int) : Rat) = B64.infMag - 1 := by constructor <;> decide +kernel
+example : B64.rne (mkRat 1 (2 ^ 1075)) = 0 ∧ B64.rne (mkRat 3 (2 ^ 1076)) = 1 ∧
+    B64.rne (mkRat (-3) (2 ^ 1075)) = B64.signBit + 2 := by
+  refine ⟨?_, ?_, ?_⟩ <;> decide +kernel
+example : (mkRat 1 3 : Rat) ≤ mkRat 1 2 := by decide +kernel
+
+/-! ### Round 2: the conversion of a rational is ONE correctly rounded step -/
+
+/-- In the instance the correspondence run executes, the conversion of an exact
+rational (and of a machine integer) to `float64` IS `B64.rne` of its exact
+value — a single rounding, specified by `C12_rne_nearest` — whatever the size
+of numerator and denominator.  (`big.Rat.Float64` and `float64(int)` on the Go
+side are compared with it bit for bit.) -/
+theorem C12_conversion_rat_is_rne :
+    (∀ q : Rat, convertToFloat64 hwOps (.rat q) = fOfBits (B64.rne q)) ∧
+    (∀ n : Int, convertToFloat64 hwOps (.int n) = fOfBits (B64.rne (n : Rat))) ∧
+    (∀ q : Rat, runC12 hwOps "inexact-num" [.rat q] = some (.ok [.flt (fOfBits (B64.rne q))])) :=
+  ⟨fun _ => rfl, fun _ => rfl, fun _ => rfl⟩
+
+/-- Converting `a/b` as `float64(a) / float64(b)` (`B64.divThenRound`: round
+`a`, round `b`, round the quotient of the rounded values) is NOT that
+conversion: for `1/(2^53+1)` it yields `2^-53` (`3ca0000000000000`) while the
+nearest double is its predecessor (`3c9fffffffffffff`).  The witness is in
+`harness/corpus/C12.txt` (`inexact-num r:1/9007199254740993`), so the check
+fails if the real `ConvertToFloat64` ever takes that shortcut (seeded change
+`C12-rat-to-float-double-rounding`). -/
+theorem C12_double_rounding_counterexample :
+    ¬ ∀ a b : Int, 0 < b → B64.divThenRound a b = some (B64.rne (mkRat a b.toNat)) := by
+  intro h
+  have h1 := h 1 9007199254740993 (by decide)
+  have e : (9007199254740993 : Int).toNat = 9007199254740993 := by decide
+  rw [e, B64.divThenRound_witness.1, B64.divThenRound_witness.2] at h1
+  exact absurd (Option.some.inj h1) (by decide)
+
+/-- The double-rounded result is strictly farther from `1/(2^53+1)` than the
+correctly rounded one (so it violates item 2 of `C12_rne_nearest_full`). -/
+theorem C12_double_rounding_not_nearest :
+    ∃ r v : Rat, B64.toRat 0x3c9fffffffffffff = some r ∧ B64.toRat 0x3ca0000000000000 = some v ∧
+      B64.rdist (mkRat 1 9007199254740993) r < B64.rdist (mkRat 1 9007199254740993) v :=
+  ⟨mkRat 9007199254740991 (2 ^ 106), mkRat 1 (2 ^ 53), by decide +kernel, by decide +kernel, by decide +kernel⟩
+
+/-! ### Round 2: float `math:pow` and float `range` -/
+
+/-- `math:pow` outside the exact branch (a float argument, or an exact
+non-integer exponent): the instance's `pow` on the two converted arguments.
+(`ops.pow` itself — Go's `math.Pow` — is trusted like the other FPU operations;
+`./check C12` compares it with libm's `pow` and with an exact reference on the
+arguments where the value is specified: the C99 special-case table and exactly
+representable integer powers.) -/
+theorem C12_pow (ops : F64Ops F) (b e : Num F) (st : Option (Num F))
+    (h : (isExact b && isExactInt e) = false) :
+    run ops "pow" [b, e] st =
+      .ok [.flt (ops.pow (convertToFloat64 ops b) (convertToFloat64 ops e))] := by
+  show outs (mathPow ops b e) = _
+  unfold mathPow
+  simp [h, outs, resMap, fromGo]
+
+example : (isExact (Num.int 4 : Num UInt64) && isExactInt (Num.rat (mkRat 1 2) : Num UInt64)) = false := by
+  decide
+
+/-- `range` with a float among start, end and `&step` runs the float loop on
+the arguments converted with `ConvertToFloat64` (`0` is the default start). -/
+theorem C12_range_float (ops : F64Ops F) (c : FCmp F) (fuel : Nat) (s e : Num F) (step : Option (Num F))
+    (h : HasFloat ([s, e] ++ step.toList)) :
+    rangeC12 ops c fuel [s, e] step =
+      resMap (·.map .flt) (rangeBuiltinFloat ops c fuel (([s, e] ++ step.toList).map (convertToFloat64 ops))) ∧
+    (HasFloat ([.int 0, e] ++ step.toList) →
+      rangeC12 ops c fuel [e] step =
+        resMap (·.map .flt)
+          (rangeBuiltinFloat ops c fuel (([.int 0, e] ++ step.toList).map (convertToFloat64 ops)))) := by
+  constructor
+  · cases step with
+    | none => simp only [Option.toList, List.append_nil] at h ⊢; simp only [rangeC12]; rw [unifyNums_float ops _ .int h]; rfl
+    | some st => simp only [Option.toList] at h ⊢; simp only [rangeC12]; rw [unifyNums_float ops _ .int h]; rfl
+  · intro h'
+    cases step with
+    | none => simp only [Option.toList, List.append_nil] at h' ⊢; simp only [rangeC12]; rw [unifyNums_float ops _ .int h']; rfl
+    | some st => simp only [Option.toList] at h' ⊢; simp only [rangeC12]; rw [unifyNums_float ops _ .int h']; rfl
+
+/-- The float loops: the outputs are `start, start+step, (start+step)+step, …`
+(left-nested `ops.add`, i.e. accumulated IEEE additions — NOT `start + i·step`),
+every output is strictly inside the range, and the loop ends when the bound is
+reached or when adding the step no longer moves the value. -/
+theorem C12_range_float_loop (ops : F64Ops F) (c : FCmp F) (end_ step : F) (fuel : Nat) (cur : F) (l : List F) :
+    (rangeFloatUp ops c end_ step fuel cur = .ok l →
+      l = C12.iterate (fun x => ops.add x step) cur l.length ∧
+      (∀ x ∈ l, c.lt x end_ = true) ∧ (∀ x ∈ l.dropLast, c.le (ops.add x step) x = false)) ∧
+    (rangeFloatDown ops c end_ step fuel cur = .ok l →
+      l = C12.iterate (fun x => ops.add x step) cur l.length ∧
+      (∀ x ∈ l, c.lt end_ x = true) ∧ (∀ x ∈ l.dropLast, c.le x (ops.add x step) = false)) :=
+  ⟨rangeFloatUp_spec ops c end_ step fuel cur l, rangeFloatDown_spec ops c end_ step fuel cur l⟩
+
+-- non-vacuity: on the bit-pattern toy instance (every sum is 0, "less" is < on
+-- patterns) the ascending loop from 0 with end 5 outputs 0 and stops on the guard
+example : rangeFloatUp C11.bitsOps ⟨fun a b => a < b, fun a b => a ≤ b⟩ 5 1 10 0 = .ok [0] := by decide
+example : HasFloat ([Num.flt (0 : UInt64), .int 3] ++ (none : Option (Num UInt64)).toList) :=
+  ⟨.flt 0, by simp, rfl⟩
